@@ -224,7 +224,7 @@ func run(c *core.Ctx) {
 			}
 			return xt.TypeDescriptor()
 		}
-		recs := univ.WireAlphabet(md, univ.WireOpt{Small: p.small, Depth: 1})
+		recs := univ.WireAlphabet(md, univ.WireOpt{Small: p.small, Depth: 1, NonMinUnknownTag: true})
 		total := univ.TupleCount(len(recs), p.wireN)
 		univ.ForTuples(c, len(recs), p.wireN, func(idx []int) {
 			in, name := univ.Concat(recs, idx)
